@@ -1,6 +1,6 @@
 (* C18 — proofs about model/M_Cache.v *)
 From Coq Require Import ZArith List Bool Lia.
-From FxV Require Import model.M_Cache.
+From FxV Require Import model.M_Cache model.M_CacheShape.
 Import ListNotations.
 Open Scope Z_scope.
 
@@ -534,3 +534,8 @@ Lemma c18_nonvacuous :
   gov_execute Z [(fun x => Ok (x + 1)); (fun x => Err (x + 1)); (fun x => Ok (x + 1))] (fun x => x + 10) (fun b x => if b then x + 100 else x + 200) 0 = (210, false) /\
   core_recv Z true (fun x => Ok (x + 1)) (fun x => Err (x + 1)) (fun x => x + 10) (fun b x => if b then x + 100 else x + 200) 0 = (210, false).
 Proof. vm_compute. repeat split. Qed.
+
+(* ------------------------------------------------------------------------------------------ *)
+(** * the sources still have the shape the models were transcribed from (gen/Gen_C18.v is regenerated on every run) *)
+Lemma source_shapes : source_shapes_ok = true.
+Proof. vm_compute. reflexivity. Qed.
